@@ -904,6 +904,9 @@ func (ex *Exec) mapFSFiles(sys value) map[string]*value {
 	return files
 }
 
+// builderSeg is a strings.Builder buffer cell standing for one rendered segment (text of unknown length ≥ 1).
+type builderSeg struct{ seg Seg }
+
 func (e *Engine) registerBuilder() {
 	bufOf := func(a []value) *value {
 		p := a[0].(*value)
@@ -922,20 +925,35 @@ func (e *Engine) registerBuilder() {
 		copy(cells[n:], bs)
 		*cell = newSliceOf(cells)
 	}
+	// cells of the buffer are bytes (uint64 or 8-bit terms) or, for text whose characters are not modelled (rendered
+	// numbers), one builderSeg cell per rendered segment
 	toBytes := func(fr *frame, s value) []value {
-		bs, ok := fr.ex.byteTerms(s)
-		if !ok {
-			unsupported("strings.Builder with rendered segments")
-		}
-		out := make([]value, len(bs))
-		for i, b := range bs {
-			if b.IsConst() {
-				out[i] = b.C
-			} else {
-				out[i] = b
+		var out []value
+		for _, g := range strSegs(s) {
+			switch g.K {
+			case segLit:
+				for i := 0; i < len(g.S); i++ {
+					out = append(out, uint64(g.S[i]))
+				}
+			case segByte:
+				if g.T.IsConst() {
+					out = append(out, g.T.C)
+				} else {
+					out = append(out, g.T)
+				}
+			default:
+				out = append(out, builderSeg{g})
 			}
 		}
 		return out
+	}
+	hasSeg := func(s *sliceV) bool {
+		for i := 0; i < sliceLen(s); i++ {
+			if _, ok := (*s.at(i)).(builderSeg); ok {
+				return true
+			}
+		}
+		return false
 	}
 	e.Register("(*strings.Builder).WriteString", func(fr *frame, a []value) value {
 		bs := toBytes(fr, a[1])
@@ -963,14 +981,37 @@ func (e *Engine) registerBuilder() {
 	e.Register("(*strings.Builder).String", func(fr *frame, a []value) value {
 		s, _ := (*bufOf(a)).(*sliceV)
 		n := sliceLen(s)
-		vals := make([]value, n)
+		var segs []Seg
 		for i := 0; i < n; i++ {
-			vals[i] = *s.at(i)
+			switch b := (*s.at(i)).(type) {
+			case uint64:
+				segs = append(segs, Seg{K: segLit, S: string([]byte{byte(b)})})
+			case *Term:
+				segs = append(segs, Seg{K: segByte, T: b})
+			case builderSeg:
+				segs = append(segs, b.seg)
+			}
 		}
-		return strFromBytes(vals)
+		return mkStr(segs)
 	})
 	e.Register("(*strings.Builder).Len", func(fr *frame, a []value) value {
 		s, _ := (*bufOf(a)).(*sliceV)
+		if hasSeg(s) {
+			// the length of rendered text is not modelled: only "is it empty" can be answered (a rendered segment
+			// is never empty); callers that need more end the path
+			nseg := 0
+			for i := 0; i < sliceLen(s); i++ {
+				if _, ok := (*s.at(i)).(builderSeg); ok {
+					nseg++
+				}
+			}
+			fr.ex.permN++
+			tt := fr.ex.tt
+			l := fr.ex.Input(fmt.Sprintf("builderlen_%d", fr.ex.permN), 64)
+			lo, hi := uint64(sliceLen(s)), uint64(sliceLen(s)+24*nseg)
+			fr.ex.Assume(tt.And(tt.Cmp(OpULe, tt.BV(lo, 64), l), tt.Cmp(OpULe, l, tt.BV(hi, 64))))
+			return l // between 1 and 25 bytes per rendered segment
+		}
 		return fr.mkInt(int64(sliceLen(s)))
 	})
 	e.Register("(*strings.Builder).Reset", func(fr *frame, a []value) value { *bufOf(a) = (*sliceV)(nil); return nil })
